@@ -2276,7 +2276,8 @@ proof fn lemma_uall_join_new(t0: &CosetTable, t1: &CosetTable, rels: Set<FreeWor
 
 //@ begin src/fpgroups/cosets.rs :: - :: fn coset_table
 //@ rw R16 /^\) -> CosetTable$/) -> (result: CosetTable)/
-//@ rw R19 /for i in 0\.\.\n([ \t]*)\{/let mut __i: usize = 0;\n\1loop\n\1{\n\1    let i = __i; __i += 1;/
+//@ rw R19 /for i in 0\.\.\n([ \t]*)\{/let mut __i: usize = 0;\n\1loop\n\1{\n\1    let i = __i; __i += 1;/?
+//@ rw R19 /for i in 0\.\.([A-Za-z0-9_]+)\n([ \t]*)\{/let mut __i: usize = 0;\n\2loop\n\2{\n\2    if __i >= \1 { break; }\n\2    let i = __i; __i += 1;/?
 //@ rw R19 /assert!\(n < 100_000, "Reached coset table limit of 100_000"\);/__limit_guard(n < 100_000);/
 //@ rw R20 /for g in table\.all_gens\(\)\n([ \t]*)\{/let __gens = table.all_gens(); let mut __gk: usize = 0;\n\1while __gk < __gens.len()\n\1{\n\1    let g = __gens[__gk]; __gk += 1;/
 //@ rw R5+R17 /for w in &rels$/for w in it: __set_items(&rels)/
@@ -2851,7 +2852,8 @@ proof fn lemma_compacted_row(t: &CosetTable, r: &CosetTable, nw: Seq<int>, c: in
 //@ begin src/fpgroups/cosets.rs :: - :: fn intersection_table | props=C13
 //@ rw R16 /-> CosetTable$/-> (result: CosetTable)/
 //@ rw R12 /let mut n2o = vec!\[\];/let mut n2o: Vec<(usize, usize)> = vec![];/
-//@ rw R19 /for i in 0\.\.\n([ \t]*)\{/let mut __i: usize = 0;\n\1loop\n\1{\n\1    let i = __i; __i += 1;/
+//@ rw R19 /for i in 0\.\.\n([ \t]*)\{/let mut __i: usize = 0;\n\1loop\n\1{\n\1    let i = __i; __i += 1;/?
+//@ rw R19 /for i in 0\.\.([A-Za-z0-9_]+)\n([ \t]*)\{/let mut __i: usize = 0;\n\2loop\n\2{\n\2    if __i >= \1 { break; }\n\2    let i = __i; __i += 1;/?
 //@ rw R17 /for g in table\.all_gens\(\)$/for g in it: table.all_gens()/
 //@ rw R14 /^([ \t]*)table\.compact\(\)$/\1let __r = table.compact();\n\1__r/
 #[verifier::spinoff_prover]
@@ -3253,7 +3255,8 @@ proof fn lemma_ind_pairing<F: Fn(&Vec<usize>, isize) -> Vec<usize>>(img: &F, t: 
 //@ rw R16 /-> CosetTable$/-> (result: CosetTable)/
 //@ rw R5 /HashMap::from\(\[\(start\.clone\(\), 0\)\]\)/__o2n_from1(start.clone(), 0)/
 //@ rw R5 /HashMap::from\(\[\(0, start\.clone\(\)\)\]\)/__n2o_from1(0, start.clone())/
-//@ rw R19 /for i in 0\.\.\n([ \t]*)\{/let mut __i: usize = 0;\n\1loop\n\1{\n\1    let i = __i; __i += 1;/
+//@ rw R19 /for i in 0\.\.\n([ \t]*)\{/let mut __i: usize = 0;\n\1loop\n\1{\n\1    let i = __i; __i += 1;/?
+//@ rw R19 /for i in 0\.\.([A-Za-z0-9_]+)\n([ \t]*)\{/let mut __i: usize = 0;\n\2loop\n\2{\n\2    if __i >= \1 { break; }\n\2    let i = __i; __i += 1;/?
 //@ rw R17 /for g in table\.all_gens\(\)$/for g in it: table.all_gens()/
 //@ rw R5 /img\(&n2o\[&i\], g\)/img(__n2o_at(&n2o, i), g)/
 //@ rw R5 /\*o2n\.entry\(k\.clone\(\)\)\.or_insert\(table\.len\(\)\)/__entry_or_insert(&mut o2n, k.clone(), table.len())/
